@@ -231,6 +231,9 @@ def gen_slot_cases(run, desc):
                 if len(top) >= 2:
                     a, b = rng.sample(top, 2)
                     cases.append(mk(subst=[[[a], rng.choice(KINDS)], [[b], rng.choice(KINDS)]]))
+    for c in cases:
+        if rng.random() < 0.15:
+            c["interoperability"] = True
     # parse_observable on the observable classes
     for key, cat in reach:
         if cat != "observables":
@@ -292,11 +295,14 @@ def gen_raw_cases(run):
                 cases.append({"op": "parse", "data": v, "allow_custom": ac, "version": ver})
                 if not isinstance(v, str):
                     cases.append({"op": "parse_text", "data": v, "allow_custom": ac, "version": ver})
+                    cases.append({"op": "parse_file", "data": v, "allow_custom": ac, "version": ver,
+                                  "interoperability": rng.random() < 0.3})
         if isinstance(v, (dict, str)) or v is None or isinstance(v, list):
             cases.append({"op": "parse_observable", "data": v, "valid_refs": [], "version": rng.choice([None, "2.0", "2.1"])})
     # texts that are not JSON
     for t in ["", " ", "{", "}", "{'type': 'identity'}", "nul", "\ufeff{}", "[1,]", "{\"type\":}", "NaN", "Infinity", "1e999", "\"\\ud800\""]:
         cases.append({"op": "parse", "data": t})
+        cases.append({"op": "parse_file", "data": t})
     return cases
 
 
@@ -528,7 +534,7 @@ def ver_term(v, I):
 
 def model_term(case, desc, I):
     op = case["op"]
-    ac = common.coq_bool(bool(case.get("allow_custom", False)))
+    ac = common.coq_bool(bool(case.get("allow_custom", False))) + " " + common.coq_bool(bool(case.get("interoperability", False)))
     ver = ver_term(case.get("version"), I)
     data = materialise(case, desc) if op != "deep" else None
     if op == "deep":
@@ -547,9 +553,9 @@ def model_term(case, desc, I):
         if isinstance(data, str):
             return "PT %s %s %s" % (text_result(data, I), ac, ver)
         return "PV %s %s %s %s" % (dec_term(data, I), value_term(case, I), ac, ver)
-    if op == "parse_text":
+    if op in ("parse_text", "parse_file"):
         tr = text_result(data, I) if isinstance(data, str) else "(TDecoded %s)" % value_term(case, I)
-        return "PT %s %s %s" % (tr, ac, ver)
+        return "%s %s %s %s" % ("PT" if op == "parse_text" else "PF", tr, ac, ver)
     if op == "construct":
         return "PC %s %s %s %s" % (dec_term(data, I), I.raw("c", case["cls"], "cls", "CL %s" % common.coq_str(case["cls"])), ac,
                                    value_term(case, I))
@@ -560,26 +566,27 @@ def model_term(case, desc, I):
         return "PO %s %s %s %s %s" % (dec_term(data, I), value_term(case, I), vr, ac, ver)
     if op == "store_add":
         if isinstance(data, list):
-            return "show_store_outcomes (store_add_list VAR live clean_any RF nodec [] %s %s)" % (
+            return "show_store_outcomes (store_add_list VAR REG clean_any RF nodec [] %s %s)" % (
                 common.coq_list([I.j(x) for x in data]), ver)
-        return "show_store_outcomes (store_add_one VAR live clean_any RF %s [] %s %s)" % (dec_term(data, I), value_term(case, I), ver)
+        return "show_store_outcomes (store_add_one VAR REG clean_any RF %s [] %s %s)" % (dec_term(data, I), value_term(case, I), ver)
     return None
 
 
 HELPERS = """Definition nodec : decoder := dec_table [].
 Definition tkey : ustring := u "t".
-Definition PV dec x ac ver := show_MP (parse VAR live clean_any RF dec x ac ver).
-Definition PT tr ac ver := show_MP (parse VAR live clean_any RF (fun _ => tr) (JStr tkey) ac ver).
-Definition PC dec c ac x := show_MU (call_check (kw_of x) false ;;; construct VAR live clean_any dec c ac (kw_of x)).
-Definition PO dec x vr ac ver := show_MP (parse_observable VAR live clean_any RF dec x vr ac ver).
-Definition POT tr vr ac ver := show_MP (parse_observable VAR live clean_any RF (fun _ => tr) (JStr tkey) vr ac ver).
+Definition PV dec x ac io ver := show_MP (parse VAR REG clean_any RF dec x ac io ver).
+Definition PT tr ac io ver := show_MP (parse VAR REG clean_any RF (fun _ => tr) (JStr tkey) ac io ver).
+Definition PF tr ac io ver := show_MP (parse_file VAR REG clean_any RF nodec tr ac io ver).
+Definition PC dec c ac io x := show_MU (call_check (kw_of x) false ;;; construct VAR REG clean_any dec c ac io (kw_of x)).
+Definition PO dec x vr ac io ver := show_MP (parse_observable VAR REG clean_any RF dec x vr ac io ver).
+Definition POT tr vr ac io ver := show_MP (parse_observable VAR REG clean_any RF (fun _ => tr) (JStr tkey) vr ac io ver).
 """
 
 
-def eval_model(tag, cases, desc, unguarded, shard=400, timeout=900, refuse=False):
+def eval_model(tag, cases, desc, unguarded, shard=400, timeout=900, refuse=False, registry="live"):
     """evaluate the model on the cases (None for cases without a model term); per-shard headers carry the base objects"""
-    var = "Definition VAR : variant := unguarded_at (sites_named %s).\nDefinition RF : bool := %s.\n" % (
-        common.coq_list([common.coq_str(t) for t in unguarded]), common.coq_bool(refuse))
+    var = "Definition VAR : variant := unguarded_at (sites_named %s).\nDefinition RF : bool := %s.\nDefinition REG : registry := %s.\n" % (
+        common.coq_list([common.coq_str(t) for t in unguarded]), common.coq_bool(refuse), registry)
     cases_dir = os.path.join(common.COQ, "Cases")
     os.makedirs(cases_dir, exist_ok=True)
     jobs = []
@@ -672,7 +679,7 @@ def parse_store_set(line):
 
 def impl_label(case, r):
     if r["out"] == "Ok":
-        if case["op"] in ("parse", "parse_text", "parse_observable", "deep"):
+        if case["op"] in ("parse", "parse_text", "parse_file", "parse_observable", "deep"):
             return "Ok:" + ("obj" if r.get("ret") == "obj" else "dict")
         return "Ok"
     return r.get("cls")
@@ -895,11 +902,30 @@ def check(run):
     cimpl = common.run_impl("c17_impl", ccases, procs=2, args=("custom",))
     run.coverage["custom_registry_cases"] = len(ccases)
     chist = {}
-    for c, r in zip(ccases, cimpl):
+    cmsets = [None] * len(ccases)
+    if model_ok:
+        try:
+            clines = eval_model("c17c", ccases, desc, unguarded, refuse=MODE["refuse_custom"], registry="live_custom")
+            cdis = []
+            for i, (c, r, line) in enumerate(zip(ccases, cimpl, clines)):
+                if line is None:
+                    continue
+                cmsets[i] = parse_set(line)
+                if not refines(c, r, cmsets[i]):
+                    cdis.append((c, r, line))
+            run.coverage["custom_registry_correspondence_cases"] = sum(1 for l in clines if l is not None)
+            run.coverage["custom_registry_disagreements"] = len(cdis)
+            if cdis:
+                run.broken.append(Broken("correspondence", "custom registry: implementation outcome outside the model's outcome set",
+                                         {"first": [{"case": c, "impl": {k: r.get(k) for k in ("out", "cls", "fn", "line", "msg", "ret")},
+                                                     "model": line} for c, r, line in cdis[:8]], "count": len(cdis)}))
+        except RuntimeError as e:
+            run.broken.append(Broken("correspondence", "model evaluation failed (custom registry)", {"error": str(e)[-2000:]}))
+    for c, r, ms in zip(ccases, cimpl, cmsets):
         run.count(c)
         k = r.get("cls") if r["out"] == "Raise" else r["out"]
         chist[k] = chist.get(k, 0) + 1
-        run.violations += oracle_one(c, r, None)
+        run.violations += oracle_one(c, r, ms)
     run.coverage["custom_registry_histogram"] = chist
     herr = [r for r in list(impl) + list(cimpl) if r["out"] == "HarnessError"]
     if herr:
